@@ -10,6 +10,22 @@
    producing new minima never stops).  The first four theorems hold for every Scalar instance T, hence
    also for the binary64 instance that is executed against the implementation. *)
 From GM Require Import Proofs.RTac Model.Aux Proofs.AuxR Model.MC Proofs.MC Proofs.MCR Inst.FInst Proofs.MCExample.
+From GM Require Import Gen.KernelsGen Proofs.KernelsGenEq.
+
+(* The tie by translation: accept_metropolis as generated at this run from the CURRENT source text of
+   gaddlemaps/_backend.py (Gen/KernelsGen.v, harness/pytrans.py) is the model's accept_metropolis (decision
+   on the recorded uniform draw), and its keyword default is the model's acceptance constant. *)
+Theorem C09_model_is_source_accept : forall (T : Type) (H : Scalar T) (P : Type) (e0 e1 u : T) (st : stream T P),
+  accept_metropolis_gen e0 e1 acceptance u
+  = rmap (fun r => fst (fst r)) (@accept_metropolis T _ P e0 e1 (DRand u :: st)).
+Proof. exact (@accept_metropolis_gen_eq). Qed.
+Print Assumptions C09_model_is_source_accept.
+
+Theorem C09_model_is_source_acceptance_default : forall (T : Type) (H : Scalar T),
+  accept_metropolis_gen_default_acceptance = acceptance (T := T).
+Proof. exact (@accept_default_eq). Qed.
+Print Assumptions C09_model_is_source_acceptance_default.
+
 Import ListNotations.
 Local Open Scope R_scope.
 
